@@ -235,10 +235,11 @@ def _run_stream_init_sync(
                 app._server._check_protocol_version(md.get(PROTOCOL_VERSION_KEY) if md is not None else None)
             try:
                 _deserialize_params(kwargs, info.param_types, app._server.ipc_validation)
-            except (KeyError, ValueError) as exc:
-                # Keep caller-value conversion failures in the HTTP 400 path
-                # without treating external-location resolver failures raised
-                # before deserialization as malformed Arrow.
+            except Exception as exc:
+                # Keep every caller-value conversion failure in the HTTP 400
+                # path (see the matching note in _app_unary.py) without
+                # treating external-location resolver failures raised before
+                # deserialization as malformed Arrow.
                 raise TypeError(str(exc)) from exc
             # See the note in _app_unary.py: caller-controlled shape is refused
             # while the request is still being validated, so anything the init
